@@ -215,10 +215,16 @@ pub fn flips<S: MlDsa>(seed: u64, ntuples: usize, out: &mut Out) {
             _ => (w.derive(hs0), hs0),
         };
         let mode = MODES[(t + seed as usize) % 4];
-        let m = p.bytes([8usize, 1, 64, 137][t % 4]);
-        let ctx = p.bytes([3usize, 0, 255, 16][t % 4]);
+        let m = p.bytes([137usize, 8, 1, 200][t % 4]);
+        let ctx = p.bytes([255usize, 3, 0, 16][t % 4]);
         let sig = w.sign(hs, &m, &ctx, mode, &p.arr32(), Fault::None).unwrap_or_default();
         for field in ["sig", "pk", "msg", "ctx"] { w.flip_sweep(hp, &m, &ctx, mode, &sig, field); }
+        // message and context flips are cheap: do them in every other mode as well (each pre-hash function binds the whole message)
+        for m2 in MODES {
+            if m2 == mode { continue; }
+            let s2 = w.sign(hs, &m, &ctx, m2, &p.arr32(), Fault::None).unwrap_or_default();
+            for field in ["msg", "ctx"] { w.flip_sweep(hp, &m, &ctx, m2, &s2, field); }
+        }
     }
 }
 
@@ -230,14 +236,21 @@ pub fn binding<S: MlDsa>(seed: u64, nbase: usize, out: &mut Out) {
     for b in 0..nbase {
         let mode = MODES[b % 4];
         let ctx = p.bytes([5usize, 0, 31, 254, 255, 1][b % 6]);
-        let m = p.bytes([7usize, 40, 0, 3, 200][b % 5]);
+        let m = p.bytes([7usize, 600, 0, 3, 200, 300][b % 6]);
         let sig = w.sign(hs, &m, &ctx, mode, &p.arr32(), Fault::None).unwrap_or_default();
         let _ = w.verify(hp, &m, &ctx, mode, &sig);
-        // every re-split of ctx || M (context at most 255 bytes)
+        // every re-split of ctx || M (context at most 255 bytes), and splits that would need an over-long
+        // context whose length byte wraps (256, 257, 512 bytes)
         let cat: Vec<u8> = [ctx.clone(), m.clone()].concat();
-        for cut in 0..=cat.len().min(255) {
+        for cut in (0..=cat.len().min(255)).chain([256usize, 257, 300, 512].into_iter().filter(|c| *c <= cat.len())) {
             if cut == ctx.len() { continue; }
             let _ = w.verify(hp, &cat[cut..], &cat[..cut], mode, &sig);
+        }
+        // contexts of the SAME length with different content (one byte changed; all bytes changed)
+        if !ctx.is_empty() {
+            let mut c2 = ctx.clone(); let k = p.below(c2.len() as u64) as usize; c2[k] ^= 0x40; let _ = w.verify(hp, &m, &c2, mode, &sig);
+            let c3: Vec<u8> = ctx.iter().map(|b| b ^ 0xff).collect(); let _ = w.verify(hp, &m, &c3, mode, &sig);
+            let mut c4 = ctx.clone(); let last = c4.len() - 1; c4[last] = c4[last].wrapping_add(1); let _ = w.verify(hp, &m, &c4, mode, &sig);
         }
         // every other mode / pre-hash function on the same (M, ctx)
         for m2 in MODES { if m2 != mode { let _ = w.verify(hp, &m, &ctx, m2, &sig); } }
@@ -367,6 +380,17 @@ pub fn drops<S: MlDsa>(seed: u64, rounds: usize, out: &mut Out) {
         let sig = w.sign(hs4, b"drop", b"", "pure", &p.arr32(), Fault::None).unwrap_or_default();
         let _ = w.verify(hp4, b"drop", b"", "pure", &sig);
         for h in [hp, hs, hs2, hp2, hp3, hs4, hp4] { w.drop_key(h); }
+        // keys read from strings the library did not produce: zero / random rho, K, tr sections, t1 = 0
+        let mut foreign: Vec<(&str, Vec<u8>)> = vec![("pk", vec![0u8; S::PK_LEN]), ("pk", p.bytes(S::PK_LEN))];
+        { let mut b = pkb.clone(); for x in b[..32].iter_mut() { *x = 0; } foreign.push(("pk", b)); }
+        for (lo, hi) in [(0usize, 32usize), (32, 64), (64, 128), (0, 128)] { let mut b = skb.clone(); for x in b[lo..hi].iter_mut() { *x = 0; } foreign.push(("sk", b)); }
+        { let mut b = skb.clone(); for x in b[..128].iter_mut() { *x = p.below(256) as u8; } foreign.push(("sk", b)); }
+        for (kind, b) in foreign.iter() {
+            if let Some(h) = w.deser(kind, b) {
+                if *kind == "sk" { let hd = w.derive(h); w.drop_key(hd); }
+                w.drop_key(h);
+            }
+        }
     }
 }
 
@@ -381,6 +405,32 @@ pub fn roundtrip<S: MlDsa>(seed: u64, nrandom: usize, out: &mut Out) {
     for _ in 0..nrandom { pks.push(p.bytes(S::PK_LEN)); }
     for b in pks.iter() {
         if let Some(h) = w.deser("pk", b) { let _ = w.ser(h); let h2 = w.clone_key(h); let _ = w.ser(h2); }
+    }
+    // accepted private-key strings the library did not produce: rho / K / tr / t0 sections modified (FIPS 204
+    // accepts them); each must serialise back to exactly the string it was read from
+    {
+        let (_hp, hs) = w.keygen_seed(&p.arr32());
+        let base = w.ser(hs);
+        let t0_start = 128 + (S::L + S::K) * 32 * fips204::verif_hooks::bit_length(2 * S::ETA);
+        let mut variants: Vec<Vec<u8>> = vec![];
+        for (lo, hi) in [(0usize, 32usize), (32, 64), (64, 128), (t0_start, S::SK_LEN)] {
+            let mut b = base.clone(); let k = lo + p.below((hi - lo) as u64) as usize; b[k] ^= 1 << p.below(8); variants.push(b);
+            let mut b = base.clone(); for x in b[lo..hi].iter_mut() { *x = p.below(256) as u8; } variants.push(b);
+        }
+        // strings with ONE out-of-range s1 / s2 field: they must be refused; if a decoder accepts one (and, say,
+        // zeroes the polynomial) the re-serialisation rule below exposes it
+        let c = fips204::verif_hooks::bit_length(2 * S::ETA);
+        for idx in [0usize, 255, S::L * 256, (S::L + S::K) * 256 - 1, (S::L + S::K - 1) * 256 + 17] {
+            let mut b = base.clone();
+            let bit = 128 * 8 + idx * c;
+            for t in 0..c { let (by, bi) = ((bit + t) / 8, (bit + t) % 8); b[by] |= 1 << bi; }     // field = all ones = out of range
+            variants.push(b);
+        }
+        for b in variants.iter() {
+            if let Some(h) = w.deser("sk", b) { let _ = w.ser(h); let h2 = w.clone_key(h); let _ = w.ser(h2);
+                // and it still signs deterministically: same draw, same bytes, on the object and its clone
+                let d = p.arr32(); let _ = w.sign(h, b"foreign", b"", "pure", &d, Fault::None); let _ = w.sign(h2, b"foreign", b"", "pure", &d, Fault::None); }
+        }
     }
     // private keys: generated, round-tripped twice, and derived public keys; behaviour preserved
     for i in 0..(nrandom / 8).max(2) {
